@@ -32,11 +32,11 @@ MANIFEST = dict(
     note="Trusted: Coq kernel + vm_compute; the hand port of html_formatter.rs (Format/Html.v) validated byte-exactly by "
          "correspondence; html_escape::encode_text is modelled by its three-character map; codespan-reporting's own "
          "output is not modelled — the writer theorem covers whatever it writes, and its real output is only scanned. "
-         "Formatter::format is modelled for indent=false (the HTML front end's setting).",
+         "Formatter::format is modelled for both indentation settings (C20_format).",
     technique="Coq proof (scanner/printer round trip, all inputs) + byte-exact model/implementation correspondence + verified reader run on real output",
 )
 
-THEOREMS = ["C20_escape_clean", "C20_unescape", "C20_reader_only_own_tags", "C20_markup",
+THEOREMS = ["C20_escape_clean", "C20_unescape", "C20_reader_only_own_tags", "C20_markup", "C20_format",
             "C20_writer", "C20_verbatim_writer_refuted"]
 
 ALLOWED_CLASSES = ["emphasized", "dimmed", "string", "keyword", "value", "unit", "identifier",
@@ -118,7 +118,24 @@ def rand_text(rng):
 
 
 def gen_f(rng):
-    return [(rng.randrange(12), rand_text(rng).encode()) for _ in range(rng.randrange(0, 7))]
+    return (rng.random() < 0.5,
+            [(rng.randrange(12), rand_text(rng).encode()) for _ in range(rng.randrange(0, 7))])
+
+
+INFO_TEMPLATES = [
+    ('@name("{S}")\n@description("{S2}")\nlet snail{N} = 1', "snail{N}"),
+    ('@name("{S}")\n@url("{S2}")\nunit zork{N}: Length = 2 m', "zork{N}"),
+    ('@description("{S}")\n@example("{S2}")\nfn fun{N}(x) = x', "fun{N}"),
+    ('@name("{S}")\n@aliases(zk{N}: short)\nunit zonk{N} = 3 s', "zk{N}"),
+    ('dimension Dim{N}\n@name("{S}")\nunit ud{N}: Dim{N}', "ud{N}"),
+    ('let x{N} = "{S}"', "x{N}"), ('let y{N} = 1', "{R}"), ('1', "{R}"),
+]
+
+
+def gen_i(rng, n):
+    t, kw = rng.choice(INFO_TEMPLATES)
+    f = dict(S=nb_str(rand_text(rng)), S2=nb_str(rand_text(rng)), R=rand_text(rng) or "<", N=n)
+    return t.format(**f), kw.format(**f)
 
 
 def gen_w(rng):
@@ -185,8 +202,10 @@ def coq_bs(b):
     return common.coq_string(b.decode("utf-8"))
 
 
-def coq_f(parts):
-    return "render_hs [%s]" % ";".join("(%d, %s)" % (t, coq_bs(b)) for t, b in parts)
+def coq_f(case):
+    indent, parts = case
+    return "format_hs %s [%s]" % ("true" if indent else "false",
+                                  ";".join("(%d, %s)" % (t, coq_bs(b)) for t, b in parts))
 
 
 def coq_w(ops):
@@ -201,8 +220,9 @@ def coq_w(ops):
     return "wrun_hs [%s]" % ";".join(it)
 
 
-def line_f(parts):
-    return "F " + ",".join("%d:%s" % (t, hexs(b)) for t, b in parts)
+def line_f(case):
+    indent, parts = case
+    return "F %d " % (1 if indent else 0) + ",".join("%d:%s" % (t, hexs(b)) for t, b in parts)
 
 
 def line_w(ops):
@@ -231,27 +251,42 @@ def run(chk):
     nf, nw, ne = (600, 600, 1200) if quick else (6000, 6000, 12000)
     fcases = [gen_f(rng) for _ in range(nf)]
     wcases = [gen_w(rng) for _ in range(nw)]
-    ecases = [("corpus", c["src"]) for c in corpus] + [gen_e(rng, n) for n in range(ne)]
+    ecases = [("corpus", c["src"]) for c in corpus if "src" in c] + [gen_e(rng, n) for n in range(ne)]
+    icases = [(c["setup"], c["keyword"]) for c in corpus if "setup" in c] + \
+             [gen_i(rng, n) for n in range(ne // 4)]
 
     lines = [line_f(c) for c in fcases] + [line_w(c) for c in wcases] + \
-            ["E " + hexs(src.encode()) for _, src in ecases]
+            ["E " + hexs(src.encode()) for _, src in ecases] + \
+            ["I %s|%s" % (hexs(a.encode()), hexs(b.encode())) for a, b in icases]
     import time
     t1 = time.time()
     out = common.run_harness(binary, "html", lines, shards=common.NPROC)
     chk.notes.append("harness %.1fs" % (time.time() - t1))
-    fo, wo, eo = out[:nf], out[nf:nf + nw], out[nf + nw:]
+    fo, wo, eo = out[:nf], out[nf:nf + nw], out[nf + nw:nf + nw + len(ecases)]
+    io = out[nf + nw + len(ecases):]
+    # every end-to-end case yields up to two documents (indent=false / indent=true); `info` cases one
+    docs = []          # (kind, source description, replay line, html bytes)
+
+    def unhex(h):
+        try:
+            return bytes.fromhex(h) if h not in ("", "-") else b""
+        except ValueError:
+            return b""
+    for (k0, src), o in zip(ecases, eo):
+        f = o.split(" ")
+        docs.append((f[0], src, "E " + hexs(src.encode()), unhex(f[1] if len(f) > 1 else "")))
+        if len(f) > 2 and f[2] not in ("", "-"):
+            docs.append((f[0] + "+indent", src, "E " + hexs(src.encode()), unhex(f[2])))
+    for (setup, kw), o in zip(icases, io):
+        f = o.split(" ")
+        docs.append(("info:" + f[0], "%s  ;  info %s" % (setup, kw),
+                     "I %s|%s" % (hexs(setup.encode()), hexs(kw.encode())), unhex(f[1] if len(f) > 1 else "")))
 
     items = [(coq_f(c), fo[n]) for n, c in enumerate(fcases)] + \
             [(coq_w(c), wo[n]) for n, c in enumerate(wcases)]
     # the verified reader, run on the real end-to-end output
-    ekind, ehtml = [], []
-    for o in eo:
-        k, _, h = o.partition(" ")
-        ekind.append(k)
-        try:
-            ehtml.append(bytes.fromhex(h) if h not in ("", "-") else b"")
-        except ValueError:
-            ehtml.append(b"")
+    ekind = [d[0] for d in docs]
+    ehtml = [d[3] for d in docs]
     e_expect = [py_read_str(h) for h in ehtml]
     items += [("read_hs %s" % coq_bs(h), e_expect[n]) for n, h in enumerate(ehtml)]
     t1 = time.time()
@@ -263,32 +298,37 @@ def run(chk):
     if rd_bad:
         n = min(rd_bad)
         raise common.Broken("Python reader and Coq reader disagree on real output of %r: coq=%s python=%s" % (
-            ecases[n][1], rd_bad[n], e_expect[n]))
+            docs[n][1], rd_bad[n], e_expect[n]))
 
     found = 0
-    kinds = collections.Counter(ekind)
     # end-to-end failures: the verified reader rejects the HTML (foreign tag / raw metacharacter)
-    for n, (k, src) in enumerate(ecases):
-        if ekind[n] == "panic":
-            continue        # crashes belong to C08
-        if e_expect[n].startswith("OK") and " nested=1 " in e_expect[n]:
-            continue
+    def doc_ok(r):
+        return r.startswith("OK") and " nested=1 " in r
 
-        def fails(chars):
-            o = common.run_harness(binary, "html", ["E " + hexs("".join(chars).encode())], shards=1)[0]
-            kk, _, h = o.partition(" ")
-            if kk == "panic":
-                return False
-            r = py_read_str(bytes.fromhex(h) if h not in ("", "-") else b"")
-            return not (r.startswith("OK") and " nested=1 " in r)
-        small = "".join(common.shrink_list(list(src), fails))
-        o = common.run_harness(binary, "html", ["E " + hexs(small.encode())], shards=1)[0]
-        kk, _, h = o.partition(" ")
+    def rerun(line, which):
+        o = common.run_harness(binary, "html", [line], shards=1)[0].split(" ")
+        if o[0] == "panic":
+            return None
+        idx = 2 if which.endswith("+indent") else 1
+        return unhex(o[idx] if len(o) > idx else "")
+
+    for n, (k, src, line, html) in enumerate(docs):
+        if k.startswith("panic") or doc_ok(e_expect[n]):
+            continue        # crashes belong to C08
+        if line.startswith("E "):
+            def fails(chars, k=k):
+                h = rerun("E " + hexs("".join(chars).encode()), k)
+                return h is not None and not doc_ok(py_read_str(h))
+            small = "".join(common.shrink_list(list(src), fails))
+            line2 = "E " + hexs(small.encode())
+            h = rerun(line2, k) or b""
+        else:
+            small, line2, h = src, line, html
         chk.violation({
             "kind": "HTML output contains markup that is not one of the renderer's own spans (or a raw metacharacter)",
-            "input": small, "outcome": kk, "html": bytes.fromhex(h).decode("utf-8", "replace") if h not in ("", "-") else "",
-            "original_input": src,
-            "replay": "printf 'E %s\\n' | harness/target/debug/nbverif html | cut -d' ' -f2 | xxd -r -p" % hexs(small.encode()),
+            "input": small, "rendering": k, "html": h.decode("utf-8", "replace"),
+            "original_input": src, "harness_line": line2,
+            "replay": "printf '%s\\n' | harness/target/debug/nbverif html | cut -d' ' -f2- | tr ' ' '\\n' | xxd -r -p" % line2,
         })
         found += 1
         if found >= 3:
@@ -298,9 +338,11 @@ def run(chk):
         for n in sorted(fw_bad):
             is_f = n < nf
             impl = bytes.fromhex(fo[n] if is_f else wo[n - nf])
-            want = b"".join(b for _, b in fcases[n]) if is_f else b"".join(o[1] for o in wcases[n - nf] if o[0] == "w")
+            want = b"".join(b for _, b in fcases[n][1]) if is_f else b"".join(o[1] for o in wcases[n - nf] if o[0] == "w")
             r = py_read(impl)
-            if (not r[0]) or r[2] != want or not r[3]:
+            text_ok = r[0] and (r[2].replace(b" ", b"") == want.replace(b" ", b"") if is_f and fcases[n][0]
+                                else r[2] == want)
+            if (not r[0]) or not text_ok or not r[3]:
                 chk.violation({
                     "kind": "HtmlFormatter/HtmlWriter output is not the renderer's own spans around the escaped input",
                     "api": "HtmlFormatter::format" if is_f else "HtmlWriter",
@@ -322,8 +364,9 @@ def run(chk):
                 "implementation_hex": fo[n] if n < nf else wo[n - nf], "model_hex": fw_bad[n]},
         }, found_input=False)
 
-    meta = sum(1 for _, s in ecases if any(c in s for c in "<>&"))
-    shapes = set((ekind[n], e_expect[n].split(" text=")[0]) for n in range(len(ecases)))
+    meta = sum(1 for d in docs if any(c in d[1] for c in "<>&"))
+    shapes = set((ekind[n], e_expect[n].split(" text=")[0]) for n in range(len(docs)))
+    kinds = collections.Counter(ekind)
     chk.cov.update({
         "evaluations": len(lines),
         "distinct_nontrivial": len(set(fo)) + len(set(wo)) + len(shapes),
@@ -332,13 +375,15 @@ def run(chk):
                 "non-trivial = all of them contain generated payload text",
         "end_to_end_outcomes": dict(kinds),
         "end_to_end_with_metacharacters": meta,
-        "formatter_cases": nf, "writer_cases": nw, "end_to_end_cases": len(ecases),
+        "formatter_cases": nf, "formatter_cases_with_indent": sum(1 for c in fcases if c[0]),
+        "writer_cases": nw, "end_to_end_cases": len(ecases), "info_cases": len(icases),
+        "documents_read_by_the_coq_reader": len(docs),
         "model_mismatches": len(fw_bad),
         "samples": [{"case": lines[0], "implementation": fo[0]},
                     {"case": lines[nf], "implementation": wo[0]},
-                    {"input": ecases[-1][1], "outcome": ekind[-1], "reader": e_expect[-1][:200]}],
+                    {"input": docs[-1][1], "outcome": ekind[-1], "reader": e_expect[-1][:200]}],
     })
-    chk.assumptions += ["Formatter::format with indent=false", "UTF-8 text; escaping is byte-wise on ASCII & < >"]
+    chk.assumptions += ["UTF-8 text; escaping is byte-wise on ASCII & < >"]
 
 
 def replay(path):
@@ -347,10 +392,14 @@ def replay(path):
         print(json.dumps(r, indent=1))
         return 0
     binary, _ = common.build_harness()
-    o = common.run_harness(binary, "html", ["E " + hexs(r["input"].encode())], shards=1)[0]
-    k, _, h = o.partition(" ")
-    html = bytes.fromhex(h) if h not in ("", "-") else b""
-    res = py_read_str(html)
-    print(k, html.decode("utf-8", "replace"))
-    print("reader:", res[:300])
-    return 0 if res.startswith("OK") and " nested=1 " in res else 1
+    line = r.get("harness_line") or ("E " + hexs(r["input"].encode()))
+    o = common.run_harness(binary, "html", [line], shards=1)[0].split(" ")
+    rc = 0
+    for h in o[1:]:
+        html = bytes.fromhex(h) if h not in ("", "-") else b""
+        res = py_read_str(html)
+        print(o[0], html.decode("utf-8", "replace"))
+        print("reader:", res[:300])
+        if not (res.startswith("OK") and " nested=1 " in res):
+            rc = 1
+    return rc
